@@ -37,7 +37,10 @@ SERIALIZERS = ["JsonSerializer", "JsonPickleSerializer", "PickleSerializer"]
 
 def gen_values(rng, n):
     base = [0, -7, 2 ** 40, True, None, "", "x", "naïve ✓ 😀", 3.5, [1, [2, [3]]], {"a": [1, 2], "b": {"c": None}},
-            ["x" * 5, {"k": "v" * 20}], "s" * 40, [list(range(30))]]
+            ["x" * 5, {"k": "v" * 20}], "s" * 40, [list(range(30))],
+            # enum members (every serializer supports them), alone and AFTER scalars inside lists / nested rows
+            tasks_conc.Color.RED, [1, tasks_conc.Color.RED], {"rows": [[0, tasks_conc.Level.LOW], ["x", tasks_conc.Color.BLUE]]},
+            ["a", {"lvl": tasks_conc.Level.HIGH}, [2.5, tasks_conc.Color.BLUE]]]
     out = list(base)
     def rec(d):
         r = rng.random()
@@ -154,6 +157,26 @@ def roundtrip(ctx: Ctx, scratch):
                         got = ["raised", exc_sig(ex)]
                     want_st = "SUCCESS" if what[0] == "value" else "FAILED"
                     want = ["value", what[1]] if what[0] == "value" else ["raised", [what[1], list(what[2])]]
+                    if got == want and what[0] == "value" and isinstance(got[1], (list, dict)):
+                        # every observation gives the body's value: what the first reader does with ITS copy must not show
+                        # in the next read through the same handle
+                        import copy
+                        keep = copy.deepcopy(what[1])
+                        if isinstance(got[1], list):
+                            got[1].append("mutated-by-reader")
+                        else:
+                            got[1]["mutated-by-reader"] = True
+                        try:
+                            again = ["value", handle.get_final_result()]
+                        except BaseException as ex:  # noqa: BLE001
+                            again = ["raised", exc_sig(ex)]
+                        if again != ["value", keep]:
+                            ctx.violation("roundtrip:second-read-differs",
+                                          f"{kind}/{ser}/min_size_to_cache={thr}: body returned {keep!r}; the second read through the same handle (after "
+                                          f"the first reader modified its copy in place) gave {again!r}",
+                                          {"kind": "roundtrip", "backend": kind, "serializer": ser, "threshold": thr, "what": ["value", keep],
+                                           "observed": [st, again], "expected": [want_st, ["value", keep]], "second_read": True})
+                        got = ["value", keep]
                     if st != want_st or got != want:
                         cls = "value" if what[0] == "value" else ("PynencError-args" if what[1] in ("RetryError", "RunnerError") else "exception")
                         ctx.violation(f"roundtrip:{cls}:{what[1] if what[0] == 'exc' else type(what[1]).__name__}",
@@ -165,6 +188,59 @@ def roundtrip(ctx: Ctx, scratch):
     ctx.count(n, len(vals) + len(EXCEPTIONS))
     ctx.notes["roundtrip"] = {"executions": n, "values": len(vals), "exceptions": len(EXCEPTIONS), "kinds": hist,
                               "configs": "2 backends x 3 serializers x thresholds {0,8,64,1024}"}
+
+
+def zombies(ctx: Ctx, scratch):
+    """a slow (zombie) execution ends AFTER the invocation was recovered, re-run by another runner and published final: the
+    zombie's outcome is stored and its final transition refused; the reader must still get the published outcome"""
+    from pynenc.invocation.status import InvocationStatus as St
+    n = 0
+    for kind in ("mem", "sqlite"):
+        for ser in (SERIALIZERS[:1] if not ctx.thorough else SERIALIZERS):
+            for first, second in ((["value", {"v": [1, 2]}], ["raise", "ValueError", ["boom", 7]]),
+                                  (["raise", "KeyError", ["k"]], ["value", [3, "ok"]])):
+                w = D.World(kind, scratch, serializer_cls=ser)
+                app, orch = w.app, w.app.orchestrator
+                tasks_conc.ATTEMPTS.clear()
+                t = w.task(tasks_conc.value_by_attempt)
+                inv = t([second])                                   # the body that counts is the SECOND runner's
+                a, b, rec = world.runner_ctx("rA"), world.runner_ctx("rB"), world.runner_ctx("rec")
+                got_a = list(orch.get_invocations_to_run(1, a))
+                assert [g.invocation_id for g in got_a] == [inv.invocation_id]
+                orch.set_invocation_status(inv.invocation_id, St.RUNNING, a)          # A is executing (slowly)
+                orch.set_invocation_status(inv.invocation_id, St.RUNNING_RECOVERY, rec)
+                orch.reroute_invocations({inv.invocation_id}, rec)
+                for c in orch.get_invocations_to_run(1, b):                           # B runs it to the end and publishes
+                    try:
+                        c.run(b)
+                    except Exception:  # noqa: BLE001
+                        pass
+                # the zombie's execution ends now, with the OTHER kind of outcome (its tail of DistributedInvocation.run)
+                try:
+                    if first[0] == "value":
+                        orch.set_invocation_result(got_a[0], first[1], a)
+                    else:
+                        import builtins
+                        orch.set_invocation_exception(got_a[0], getattr(builtins, first[1])(*first[2]), a)
+                except Exception:  # noqa: BLE001 - the refused final transition
+                    pass
+                handle = app.state_backend.get_invocation(inv.invocation_id)
+                st = handle.status.name
+                try:
+                    got = ["value", handle.get_final_result()]
+                except BaseException as ex:  # noqa: BLE001
+                    got = ["raised", exc_sig(ex)]
+                want_st = "SUCCESS" if second[0] == "value" else "FAILED"
+                want = ["value", second[1]] if second[0] == "value" else ["raised", [second[1], list(second[2])]]
+                n += 1
+                if st != want_st or got != want:
+                    ctx.violation(f"zombie:{'exception' if second[0] != 'value' else 'result'}-wiped",
+                                  f"{kind}/{ser}: runner B published {want_st} with {want!r}; a zombie execution of runner A then ended with {first!r} "
+                                  f"(stored, its final transition refused): status {st}, get_final_result -> {got!r}",
+                                  {"kind": "zombie", "backend": kind, "serializer": ser, "first": first, "second": second,
+                                   "observed": [st, got], "expected": [want_st, want]})
+    ctx.count(n, n)
+    ctx.notes["zombies"] = {"runs": n}
 
 
 def schedules(ctx: Ctx, scratch):
@@ -196,6 +272,7 @@ def main(ctx: Ctx) -> int:
     scratch = world.scratch_dir()
     try:
         schedules(ctx, scratch)
+        zombies(ctx, scratch)
         roundtrip(ctx, scratch)
     finally:
         world.rm_scratch(scratch)
@@ -210,7 +287,13 @@ def replay(ctx: Ctx, path: str) -> int:
     rp = json.load(open(path))["replay"]
     scratch = world.scratch_dir()
     try:
-        if rp["kind"] == "schedule":
+        if rp["kind"] == "zombie":
+            zombies(ctx, scratch)
+            for v in ctx.violations + ctx.known_hits:
+                print("REPRODUCED:", v["what"])
+            if not (ctx.violations or ctx.known_hits):
+                print("not reproduced")
+        elif rp["kind"] == "schedule":
             what = tuple(rp["what"])
             _, out = run_worker_reader(rp["backend"], scratch, what, rp["schedule"])
             print(json.dumps(out, indent=1, default=str))
